@@ -457,11 +457,21 @@ def rule_unlink_both(ctx):
     nid = 'unsync::cache::Cache::insert'
     upd = named(ctx, 'unsync.update_handler')
 
+    # fields that hold the node pointers: the two *_q_node fields themselves, or a field whose (struct) type contains both
+    both_holder = set()
+    for an_, a_ in prog.adts.items():
+        for v_ in a_['variants']:
+            for f_ in v_['fields']:
+                inner = prog.adts.get(norm(str((f_.get('ty') or {}).get('adt') or '')))
+                if inner and {'access_order_q_node', 'write_order_q_node'} <= {g_['name'] for vv in inner['variants'] for g_ in vv['fields']}:
+                    both_holder.add(f_['name'])
+
     def hands_on(fn):
         d = set()
         for x in prog.reachable_from([fn]):
             d |= eff.direct.get(x, set())
-        return any(e[0] == 'write' and e[2] == 'access_order_q_node' for e in d) and any(e[0] == 'write' and e[2] == 'write_order_q_node' for e in d)
+        whole = any(e[0] == 'write' and e[2] in both_holder for e in d)
+        return whole or (any(e[0] == 'write' and e[2] == 'access_order_q_node' for e in d) and any(e[0] == 'write' and e[2] == 'write_order_q_node' for e in d))
     nrep = 0
     _ho = {}
 
